@@ -441,12 +441,15 @@ class Rig:
         from bacpypes.npdu import NetworkNumberIs
         self._send(lan, mac, NetworkNumberIs(net=net, flag=flag))
 
-    def send_routed(self, lan, mac, snet):
-        """application traffic from (snet, 77) relayed by router `mac` to our local address"""
+    def send_routed(self, lan, mac, snet, dnet=None):
+        """application traffic from (snet, 77) relayed by router `mac` to our local address, or (dnet
+        given) to station (dnet, 5) - to be forwarded by the node through another adapter"""
         from bacpypes.pdu import RemoteStation, Address
         from bacpypes.npdu import NPDU
         n = NPDU()
         n.npduSADR = RemoteStation(snet, 77)
+        if dnet is not None:
+            n.npduDADR = RemoteStation(dnet, 5)
         n.npduHopCount = 200
         n.pduData = b'\x10\x08'          # unconfirmed who-is
         self._send_raw(lan, mac, n)
@@ -520,8 +523,11 @@ def random_msg(rng):
     if r < 0.6:
         n = rng.choice([0, 1, 1, 2, 2, 3])
         return ('iam', lan, mac, tuple(rng.choice(DN) for _ in range(n)))
-    if r < 0.72:
+    if r < 0.66:
         return ('routed', lan, mac, rng.choice(DN + [1, 2, 3, 4]))
+    if r < 0.72:
+        # routed traffic the node has to forward: to a directly connected net or to a dnet behind a router
+        return ('fwd', lan, mac, rng.choice(DN + [1, 2, 3, 4]), rng.choice(DN + [1, 2, 3, 4]))
     if r < 0.84:
         # NetworkServiceAccessPoint.delete_router_references (the API applications use to withdraw knowledge)
         k = rng.random()
@@ -581,6 +587,10 @@ def run_msgs(msgs, learned_a, start_a=1, three=False, probe=None):
             if m[3] not in attached:
                 hist.append(('L', NONE if net is None else net, m[2], (m[3],), 0))
             rig.send_routed(m[1], m[2], m[3])
+        elif m[0] == 'fwd':
+            if m[3] not in attached:
+                hist.append(('L', NONE if net is None else net, m[2], (m[3],), 0))
+            rig.send_routed(m[1], m[2], m[3], m[4])
         elif m[0] == 'del':
             hist.append(('F', NONE if net is None else net, m[2], m[3]))
             rig.delete(net, m[2], m[3])
@@ -641,6 +651,8 @@ OUTAGE_WITNESSES = [
     (True, True, [('link', 'B', 0), ('link', 'C', 0), ('iam', 'A', 1, (10,)), ('nni', 'A', 2, 3), ('iam', 'A', 2, (10,)),
                   ('whois', 'A', 1, 12), ('link', 'B', 1), ('link', 'C', 1)]),
     (False, False, [('link', 'A', 0), ('iam', 'A', 1, (10,)), ('routed', 'A', 2, 11), ('link', 'A', 1)]),
+    # routed traffic to be forwarded through a dead link: its source network is still learned
+    (False, False, [('iam', 'A', 1, (12,)), ('link', 'B', 0), ('fwd', 'A', 2, 12, 2), ('fwd', 'A', 3, 13, 10), ('link', 'B', 1)]),
 ]
 
 
